@@ -104,7 +104,7 @@ Fixpoint seg_groups (l : list item) : res (list string) :=
   match l with [] => Ok [] | y :: r =>
     a <- (match (if k_gba k then aref y else None) with
           | Some a => Ok (fq (or_ostr (aq (kc k)) (q (kc k))) a)
-          | None => ritem (mk_k (kc kk) (k_abs kk) true) srcs (ci false clause_subq_groupby) y end) ;;
+          | None => ritem kk srcs (ci false clause_subq_groupby) y end) ;;
     rest <- seg_groups r ;; Ok (a :: rest) end.
 Fixpoint seg_orders (l : list (item * option order)) : res (list string) :=
   match l with [] => Ok [] | (y, d) :: r =>
